@@ -340,6 +340,8 @@ func Check() *common.Check {
 	return &common.Check{
 		ID:    "C14",
 		Level: "exploration",
+		// every case is recorded before it runs: a fatal error or a hang of the worker is attributed to it
+		CrashSafe: true,
 		Rule: "(S) every struct type of pkg/sql/ast with a Children method (listed from the current source by tools/astreg) x every exported field that can hold a node, " +
 			"populated alone with uniquely tagged content to depth 2, slices with 2 and 3 elements and rows of nested slices with lengths (2,2), (1,3), (3,1); (S2) every interface-typed node position (field or slice element) x every concrete node type assignable to it; (T) every tree of the sqlgen statement space (quick: without 3/4-operator shapes) " +
 			"every .sql file under /repo/testdata the parser accepts, and left-deep operator / UNION chains of every length 2..40, around 64..1024 and a ladder up to 1200 operands. Oracle on each root: multiset of nodes seen by ast.Inspect == multiset of node-typed values reachable by reflection. " +
